@@ -70,6 +70,18 @@ def alias_renamed_fns(j, sigs):
         us = by_sig_u.get(sg, [])
         if len(ms) == 1 and len(us) == 1:
             ren[us[0]] = ms[0]
+    # moved, not renamed: same function name and signature under another module / impl path
+    left_m = [n for n in missing if n not in ren.values()]
+    left_u = [n for n in unknown if n not in ren]
+    mv_m, mv_u = {}, {}
+    for n in left_m:
+        mv_m.setdefault((n.split("::")[-1],) + sig_known(n)[1:], []).append(n)
+    for n in left_u:
+        mv_u.setdefault((n.split("::")[-1],) + sig_of(present[n])[1:], []).append(n)
+    for sg, ms in mv_m.items():
+        us = mv_u.get(sg, [])
+        if len(ms) == 1 and len(us) == 1:
+            ren[us[0]] = ms[0]
     if not ren:
         return []
     import re as _re
